@@ -95,7 +95,16 @@ def run_odd_values(spec, res):
     import numpy as np
     from ..common import import_lazy_dataset, exc_sig
     ld = import_lazy_dataset()
-    vals = [None, 0, False, '', [], (), {}, np.int64(0), b'', 0.0, [None], 'x', None, 0]
+    vals = [None, 0, False, '', [], (), {}, np.int64(0), b'', 0.0, [None], 'x', None, 0,
+            # values that look like something the machinery passes around: an
+            # exception object, a (key, example) pair, a 1-tuple, a class
+            ValueError('v'), StopIteration(), ('k0', 5), (7,), KeyError, Ellipsis,
+            NotImplemented]
+
+    def same(a, b):
+        if isinstance(a, BaseException) or isinstance(b, BaseException):
+            return type(a) is type(b) and a.args == b.args
+        return type(a) is type(b) and a == b
     ops = {
         'map': lambda d: d.map(_ident),
         'prefetch1': lambda d: d.prefetch(1, 2),
@@ -167,8 +176,7 @@ def run_odd_values(spec, res):
                 continue
             res.count('odd_value_iterations_compared', 2)
             for g in got:
-                if len(g) != len(vals) or any(type(a) is not type(b) or a != b
-                                              for a, b in zip(g, vals)):
+                if len(g) != len(vals) or not all(same(a, b) for a, b in zip(g, vals)):
                     res.violation('iteration-differs-from-reference', case,
                                   {'got': repr(g)[:400], 'want': repr(vals)},
                                   sig={'last_op': chain[-1], 'values': 'odd'})
